@@ -460,14 +460,16 @@ class Workflow(Composite):
             self._inputs = self._build_inputs()
             self._outputs = self._build_outputs()
             for old, new in [(old_inputs, self.inputs), (old_outputs, self.outputs)]:
-                for old_channel in old:
+                for key, old_channel in old.items():
                     if old_channel.connected:
                         # If the old channel was connected to stuff, we'd better still
                         # have a corresponding channel and be able to copy these, or we
                         # should fail hard.
                         # But, if it wasn't connected, we don't even care whether or not
                         # we still have a corresponding channel to copy to
-                        new_channel = new[old_channel.label]
+                        new_channel = new[key]  # Panels are keyed by the exposed name
+                        if new_channel is old_channel:
+                            continue  # Same child channel exposed again: nothing to move
                         new_channel.copy_connections(old_channel)
                         swapped_conenctions = old_channel.disconnect_all()  # Purge old
                         connection_changes.append(
@@ -479,9 +481,9 @@ class Workflow(Composite):
                 old_channel.connect(*swapped_conenctions)
             self._inputs = old_inputs
             self._outputs = old_outputs
-            e.message = (
-                f"Unable to rebuild IO for {self.full_label}; reverting to old IO."
-                f"{e.message}"
+            e.args = (
+                f"Unable to rebuild IO for {self.full_label}; reverting to old IO. "
+                f"{e}",
             )
             raise e
 
@@ -511,8 +513,9 @@ class Workflow(Composite):
         except Exception as e:
             # If IO can't be successfully rebuilt using this node, revert changes and
             # raise the exception
-            self.replace_child(replacement_node, replaced)  # Guaranteed to work since
-            # replacement in the other direction was already a success
+            super().replace_child(replacement_node, replaced)  # Guaranteed to work
+            # since replacement in the other direction was already a success; the IO
+            # was reverted by the failed rebuild itself
             raise e
 
         return replaced, replacement_node
